@@ -383,7 +383,7 @@ func replayOnRealCode(eng *Engine, rf *ReplayFile, st *oblStatus, fr *FuncResult
 	val := func(term string) (string, bool) { v, ok := model[term]; return v, ok }
 	qual := relQual(fn)
 	var sb strings.Builder
-	sb.WriteString("package " + fn.Pkg.Pkg.Name() + "\n\nimport (\n\t\"testing\"\n")
+	sb.WriteString("package " + fn.Pkg.Pkg.Name() + "\n\nimport (\n\t\"testing\"\n\t\"fmt\"\n\t\"math/big\"\n\t\"reflect\"\n")
 	imports := map[string]bool{}
 	body := &strings.Builder{}
 	// parameters
@@ -513,7 +513,7 @@ func replayOnRealCode(eng *Engine, rf *ReplayFile, st *oblStatus, fr *FuncResult
 	}
 	// clause
 	var check string
-	g := &goCompiler{eng: eng, pkg: fn.Pkg.Pkg, pc: eng.db.Pkgs[pkgPath], subst: map[string]string{}, lets: fr.Contract.Lets}
+	g := &dynCompiler{eng: eng, pkg: fn.Pkg.Pkg, pc: eng.db.Pkgs[pkgPath], subst: map[string]string{}, dynSub: map[string]bool{}, lets: fr.Contract.Lets}
 	nres := fn.Signature.Results().Len()
 	var resNames []string
 	for i := 0; i < nres; i++ {
@@ -548,7 +548,7 @@ func replayOnRealCode(eng *Engine, rf *ReplayFile, st *oblStatus, fr *FuncResult
 		if cl == nil {
 			return "not-attempted"
 		}
-		check = g.expr(cl.Expr)
+		check = "verifBool(" + g.expr(cl.Expr) + ")"
 		if g.failed != "" {
 			rf.Replay["reason"] = g.failed
 			return "not-attempted"
@@ -595,7 +595,7 @@ func replayOnRealCode(eng *Engine, rf *ReplayFile, st *oblStatus, fr *FuncResult
 		sb.WriteString("\t\"" + im + "\"\n")
 	}
 	sb.WriteString(")\n")
-	sb.WriteString(strings.Replace(replayHelpers, "verifErrCode(e)", errCodeExpr(eng, fn.Pkg.Pkg, imports), 1))
+	sb.WriteString(dynReplayHelpers)
 	if strings.Contains(replayHelpers, "verifErrCode") && !imports[eng.modPath+"/internal/qerr"] {
 		// helper needs qerr + errors: emit separately below
 	}
